@@ -242,6 +242,12 @@ func shimAssert(x *Exec, t *Thread, a []Value, c *callCtx) (Value, nativeStatus)
 	msg := x.argStr(a[1])
 	site := msg + " @" + x.lastPos
 	x.asserts[site] = true
+	if x.cross != nil && !cond.IsConst() && x.known(cond) == 0 && !x.replaying() {
+		x.P.obligN++
+		if n := x.P.Cfg.CrossEvery; n > 0 && x.P.obligN%int64(n) == 0 {
+			x.crossCheck(x.F.Not(cond))
+		}
+	}
 	if !x.branch(cond) {
 		x.violate("assert", msg, nil)
 	}
